@@ -283,7 +283,7 @@ impl Monitor for C02 {
             let class = *rng.pick(&[Class::Uniform, Class::Walk, Class::SmallInt, Class::Blocks]);
             let exact = rep % 2 == 0;
             // the exact run is O(N) big-rational operations per step: shorter for the largest windows
-            let len = if exact { (2600usize).min(120_000 / n.max(8)).max(4 * n + 700) } else { cfg.tier.pick(3000, 6000) + 4 * n };
+            let len = if exact { (2600usize).min(120_000 / n.max(8)).max(4 * n + 700) } else { cfg.tier.pick(5000, 9000) + 4 * n };
             let xs = gen::gen(class, n, len, &mut rng);
             out.key(mix(hash_str(&format!("long{:?}{}", k, exact)), gen::hash_f64s(&xs)));
             out.count("long_history_trials", 1);
@@ -336,7 +336,7 @@ impl Monitor for C02 {
         v
     }
     fn rule(&self) -> String {
-        "trial = (view kind of the ten listed, N, input class of the 18-class catalogue, scalar), plus long-history trials (2600..6000 values, N in {3, 17, 40, 64, 130, 250}); the real view is fed the stream and after every update its last() (and WelfordOnline's mean()/variance()) is compared with the batch definition evaluated from the recorded history over the last min(t,N) values in exact rational arithmetic: equality at the exact scalar, a-priori rounding envelope (64 eps x steps x largest magnitude seen, scaled per statistic) at f64. distinct = distinct (kind, N, scalar, input hash); non-trivial = at least one Some output compared. Semantic counters (evictions, evictions of the current extremum, flat windows, ties, zero bases) are measured on the inputs by the oracle.".into()
+        "trial = (view kind of the ten listed, N, input class of the 18-class catalogue, scalar), plus long-history trials (2600..9000 values, N in {3, 17, 40, 64, 130, 250}); the real view is fed the stream and after every update its last() (and WelfordOnline's mean()/variance()) is compared with the batch definition evaluated from the recorded history over the last min(t,N) values in exact rational arithmetic: equality at the exact scalar, a-priori rounding envelope (64 eps x steps x largest magnitude seen, scaled per statistic) at f64. distinct = distinct (kind, N, scalar, input hash); non-trivial = at least one Some output compared. Semantic counters (evictions, evictions of the current extremum, flat windows, ties, zero bases) are measured on the inputs by the oracle.".into()
     }
     fn assumptions(&self) -> Vec<String> {
         vec![
